@@ -216,16 +216,26 @@ def pmap(pool, fn, tasks, chunksize=1, stall_s=2400):
     """pool.map that cannot hang: multiprocessing.Pool never notices a worker that was killed while it held a task (e.g. by the kernel for
     lack of memory) and waits for its result for ever.  Results are collected as they arrive; if none arrives for `stall_s` seconds the run
     ends as a machinery failure (exit status 2), never as a verdict."""
+    import gc
     import multiprocessing as mp
     tasks = list(tasks)
     out = [None] * len(tasks)
+    # the parent accumulates gigabytes of results while it keeps forking workers: without freezing, a full garbage collection in a freshly
+    # forked worker walks over (and thereby copies) the whole inherited heap - 16 workers x 6 GB is more than the machine has
+    gc.collect()
+    gc.freeze()
     it = pool.imap_unordered(_call_indexed, [(fn, i, x) for i, x in enumerate(tasks)], chunksize=chunksize)
-    for _ in range(len(tasks)):
-        try:
-            i, r = it.next(timeout=stall_s)
-        except mp.TimeoutError:
-            raise MachineryError(f'no result from the worker pool for {stall_s} s: a worker process was probably killed (out of memory?)')
-        out[i] = r
+    try:
+        for k in range(len(tasks)):
+            try:
+                i, r = it.next(timeout=stall_s)
+            except mp.TimeoutError:
+                raise MachineryError(f'no result from the worker pool for {stall_s} s: a worker process was probably killed (out of memory?)')
+            out[i] = r
+            if k % 256 == 255:
+                gc.freeze()
+    finally:
+        gc.unfreeze()
     return out
 
 
